@@ -104,9 +104,9 @@ Lemma caller_eqb_eq a b : caller_eqb a b = true <-> a = b.
 Proof. destruct a, b; cbn; split; intro H; try discriminate; try reflexivity. Qed.
 
 Theorem owner_variants_decided_by_ownership : forall c v phase who cmp,
-  required_role c v = Some Owner -> (decide c v phase who cmp = 0 <-> who = owner_at c phase).
+  required_role c v = Some Owner -> no_admin c phase = false -> (decide c v phase who cmp = 0 <-> who = owner_at c phase).
 Proof.
-  intros c v phase who cmp Hr. unfold decide. rewrite Hr. cbn [holds].
+  intros c v phase who cmp Hr Hna. unfold decide. rewrite Hr. cbn [holds]. rewrite Hna, orb_false_r.
   destruct (caller_eqb who (owner_at c phase)) eqn:E.
   - apply caller_eqb_eq in E. tauto.
   - split; [discriminate|]. intro H. apply caller_eqb_eq in H. congruence.
@@ -121,8 +121,20 @@ Theorem transfer_moves_rights : forall c v cmp, required_role c v = Some Owner -
      decide c v 0 CParent cmp = 0 /\ decide c v 0 CNewAdmin cmp = 1 /\
      decide c v 2 CParent cmp = 1 /\ decide c v 2 CNewAdmin cmp = 0).
 Proof.
-  intros c v cmp Hr. unfold decide. rewrite Hr. cbn [holds]. unfold owner_at.
-  split; intro Hc; rewrite Hc; cbn; repeat split.
+  intros c v cmp Hr. unfold decide. rewrite Hr. cbn [holds]. unfold owner_at, no_admin.
+  split; intro Hc; rewrite Hc; cbn; rewrite ?andb_false_r; cbn; repeat split.
+Qed.
+
+(* the second known finding, as a theorem about the model of the code as it is *)
+Theorem refuted_router_routes_open_without_wasm_admin :
+  property_role Router "AddSwapRoutes" = Some Owner /\ property_role Router "RemoveSwapRoutes" = Some Owner /\
+  (forall who cmp, decide Router "AddSwapRoutes" 3 who cmp = 0 /\ decide Router "RemoveSwapRoutes" 3 who cmp = 0) /\
+  (forall who cmp, who <> CAdmin -> decide Router "AddSwapRoutes" 0 who cmp = 1).
+Proof.
+  repeat split; try reflexivity.
+  - destruct who; reflexivity.
+  - destruct who; reflexivity.
+  - destruct who; try reflexivity. congruence.
 Qed.
 
 Theorem self_variants_only_self : forall c v phase who cmp,
